@@ -24,11 +24,20 @@ violates (a third one, markdown's `NaN%` for a file or a report without lines, w
   rate (`Stats/Printed.lean`: `printedOK`, the one place where the tolerance of the check lives);
 * the HTML page of the directory `""` (files directly under the source root) is written to
   `<output>/index.html` and replaces the global index, so `index.html` no longer shows the totals
-  the badge and coverage.json are computed from.
+  the badge and coverage.json are computed from;
+* (part Html, Props/C13Html.lean, second review items 22-24) the header of an HTML FILE page counts
+  the lines of the record, the page lists the lines of the source: they agree only when the source
+  is long enough (`C13_html_file_listed` / `…_false`; `C13_html_file_totals` below relates the header
+  to the record only); with a repeated path the HTML summaries are not the sums of their rows
+  (`C13_html_sums_false` / `…_partial`, the `_false` the guard `ShownDistinct` of the three html sum
+  theorems below was missing); and which figure a format prints at the last place
+  (`Stats/Rounded.lean`: half away from zero on the pages and in covdir, half to even with exactly
+  `p` decimals in coverage.json and markdown).
 -/
 import GrcovModel.Lemmas.Stats
 import GrcovModel.Props.C13Docs
 import GrcovModel.Props.C13Md
+import GrcovModel.Props.C13Html
 namespace Grcov.Props.C13
 open Grcov AList Grcov.Stats
 
